@@ -29,10 +29,17 @@ for gs, pat, kw in plan:
         continue
     for k, ent in alpha.build(fx.functions, root).items():
         cur = t.setdefault(k, [])
-        for ns in ent:
-            if ns not in cur:
-                cur.append(ns)
+        for e in ent:
+            hit = [x for x in cur if x["n"] == e["n"]]
+            if not hit:
+                cur.append(e)
+            else:
+                for ty in e["t"]:
+                    if ty not in hit[0]["t"] and len(hit[0]["t"]) < 8:
+                        hit[0]["t"].append(ty)
     print(gs, pat, len(fx.functions), "functions ->", len(t), "entries")
-with open(alpha.TABLE, "w") as fh:
+tmp = alpha.TABLE + ".tmp"
+with open(tmp, "w") as fh:
     json.dump(t, fh, sort_keys=True, separators=(",", ":"))
+os.replace(tmp, alpha.TABLE)
 print("wrote", alpha.TABLE, os.path.getsize(alpha.TABLE), "bytes")
